@@ -1,7 +1,10 @@
-/- Driver for C14: line = "(style env tree tmpl)<TAB>implObs" (static form) or
-   "(style env tree tmpl ops)<TAB>implObs" (loaded tree + runtime writes); see harness/props/c14. -/
+/- Driver for C14: line = "(style env tree tmpl)<TAB>implObs" (static form),
+   "(style env tree tmpl ops)<TAB>implObs" (loaded tree + runtime writes) or
+   "(E style (SD SV U) tree tmpl sched)<TAB>implObs" (a real Environment driven through its
+   transitions: the environment's own variable writes); see harness/props/c14. -/
 import ControlModel.Model.Vars
 import ControlModel.Model.VarsTree
+import ControlModel.Model.VarsEnv
 import ControlModel.Spec.C14
 
 namespace Driver.C14
@@ -124,10 +127,47 @@ def verdict (keys : List String) (roles specRoles : List RoleIn) (impl : String)
   let hyp := "-"
   s!"{model}\t{if spec then 1 else 0}\t{hyp}"
 
+/-! ### an environment driven through its transitions (six-element input, first element `E`) -/
+
+def parseItem : SExp → Option Item
+  | .list [.atom "T", .atom ev] => (EnvM.Ev.parse? ev).map (Item.trans · true)
+  | .list [.atom "F", .atom ev] => (EnvM.Ev.parse? ev).map (Item.trans · false)
+  | s => (parseWrite s).map Item.write
+
+def parseSnap : SExp → Option SnapObs
+  | .list [.atom st, .atom res, .list roles] => do
+      pure { state := st, res := res, roles := (← roles.mapM? parseObs) }
+  | _ => none
+
+def snapSx (keys : List String) (special : KV) (tmpl : Option (KV × KV)) (p : EnvSt × String) : SExp :=
+  .list [.atom p.1.st.name, .atom p.2, .list ((p.1.roles tmpl).map fun r => obsSx (modelObs keys special r))]
+
+/-- model = the interpretation of `envWriteTable` (the code's rows); Spec = `envOk` (the documented kinds +
+    "a user-supplied value is never displaced") on what the implementation showed. -/
+def verdictEnv (keys : List String) (sd sv u : KV) (t : Forest) (items : List Item) (tmpl : Option (KV × KV))
+    (impl : String) : String :=
+  if !keysClear keys then "BADINPUT\t0\t-" else
+  let special : KV := specialKeys.map fun k => (k, "?")
+  let model := SExp.list ((snapshots envWriteTable sd sv u t items).map (snapSx keys special tmpl))
+  let obs? : Option (List SnapObs) :=
+    match (SExp.parse impl).bind SExp.list? with
+    | some os => os.mapM? parseSnap
+    | none => none
+  let spec := match obs? with | some obs => envOk keys sd sv u t items tmpl obs | none => false
+  s!"{model}\t{if spec then 1 else 0}\t-"
+
 def processLine (line : String) : String :=
   match SExp.fields line with
   | [inp, impl] =>
     match SExp.parse inp with
+    | some (.list [.atom "E", _style, .list [sdS, svS, uS], tree, .list tmplL, .list schedL]) =>
+      match parseKV sdS, parseKV svS, parseKV uS, envTmpl [] tmplL, parseSiblings [tree], schedL.mapM? parseItem with
+      | some sd, some sv, some u, some (_, tmpl), some tf, some items =>
+        let tmplKeys := match tmpl with | some (a, b) => keysOfKV a ++ keysOfKV b | none => []
+        let keys := sortDedup (envKeys ++ keysOfKV sd ++ keysOfKV sv ++ keysOfKV u ++ tforestKeys tf ++ tmplKeys
+                               ++ items.filterMap Item.key?)
+        verdictEnv keys sd sv u (expand tf) items tmpl impl
+      | _, _, _, _, _, _ => "BADINPUT\t0\t-"
     | some (.list [_style, .list envL, tree, .list tmplL]) =>
       match envTmpl envL tmplL with
       | some (env, tmpl) =>
